@@ -316,6 +316,12 @@ func writeIfChanged(path, content string) (bool, error) {
 	return true, os.WriteFile(path, []byte(content), 0o644)
 }
 
+// extras are additional per-family extractors (one Go file each in this directory); each writes its
+// own Gen/<Name>.lean through writeIfChanged and returns the names of the files it changed.
+var extras []func(repo, out string) ([]string, error)
+
+func registerExtra(f func(repo, out string) ([]string, error)) { extras = append(extras, f) }
+
 func main() {
 	repo := flag.String("repo", "/repo", "repository root")
 	out := flag.String("out", "", "output directory for Gen/*.lean")
@@ -353,6 +359,14 @@ func main() {
 			}
 		}
 		summary[p.ns] = map[string]any{"sha256": hex.EncodeToString(h[:]), "count": len(es), "values": tabs}
+	}
+	for _, f := range extras {
+		ch, err := f(*repo, *out)
+		if err != nil {
+			fmt.Fprintln(os.Stderr, "extract:", err)
+			os.Exit(1)
+		}
+		changedAny = append(changedAny, ch...)
 	}
 	summary["changed"] = changedAny
 	js, _ := json.MarshalIndent(summary, "", " ")
